@@ -32,7 +32,7 @@ GEN = []
 SUPP_GEN = ["SseUnits"]
 THEOREMS = [
     "c12_endpoint_forms", "c12_data_only_announcement", "c12_live_or_raise", "c12_enter_bounded", "c12_enter_complete",
-    "c12_race_exactly_once", "c12_event_first_any_post", "c12_instances_independent", "c12_options_irrelevant", "c12_race_count", "c12_request_leaves_idle", "c12_serial_requests",
+    "c12_race_exactly_once", "c12_event_first_any_post", "c12_id_reuse_after_answer", "c12_instances_independent", "c12_options_irrelevant", "c12_race_count", "c12_request_leaves_idle", "c12_serial_requests",
     "c12_stream_chunk_independent", "c12_delivery_chunk_independent", "c12_stream_delivers_rendered",
     "c12_stream_delivers_conformant", "c12_server_messages_once_in_order", "c12_cleanup_closes_all",
     "c12_stream_end_after_announcement", "c12_stream_end_requests", "c12_post_target_function", "c12_endpoint_same_origin",
@@ -58,6 +58,13 @@ RULE = (
     "exception} x {no answer on the event stream, the answer before / at the same instant as / after the POST completion, whole or cut} x "
     "three tie orders, each followed by two more requests on the same session (a stalled reader or sender shows there; the exit is late "
     "enough for every synthesised timeout, so a hang is a missing terminal, not a machinery timeout); "
+    "hardening sweep 3 (suite sizes-collisions-environment): one event of 70 KB / 300 KB (thorough: 1 MB) in chunks of <= 16 KiB and <= 64 KiB as a server "
+    "message and as the answer of a request (stream before / after the 202, POST reply), small messages around it, the 1100th message of a session; "
+    "server REQUESTS numbered like earlier, already answered client requests (same and twin JSON type) after every answer mode; broken / ASCII-only "
+    "stderr around swallowed failures, three hours of virtual idle time between operations, dict / str subclasses and NFC/NFD / BOM / case twins as "
+    "messages and ids, `error: null` next to a result and `result: null` next to an error, a BOM before the stream; exits with the application "
+    "closing its own end of the write / read stream while a request is pending; the DEBUG share now uses a handler that formats every record; "
+    "oracle: in the pure modes the terminal must BE the server's answer, not a synthesised error; "
     "hardening sweep 2, applied to EVERY suite's cases: a quarter run under a host-configured DEBUG logger (NullHandler); the SSEParameters "
     "options {session_id, bearer_token, headers, auto_reconnect, reconnect numbers, endpoint names, keep-alive, an unknown option} cycle over "
     "all establishment outcomes / request modes / exits; every 7th case runs as 2-3 CONCURRENT sessions in one process (own server, same script, "
@@ -113,7 +120,8 @@ def term_kind(m, group):
     """where a delivered response comes from: the scripted answer of one of the requests `group`
     (in the POST reply / on the event stream / in the body of another status) or synthesised"""
     for r in group:
-        hits = [w for w in ("body", "ev", "post") if canon(H.answer_msg(r, w)) == canon(m)]
+        hits = [w for w in ("body", "ev", "post")
+                if canon({k: v for k, v in H.answer_msg(r, w).items() if v is not None}) == canon(m)]
         if hits:
             want = "body" if r["mode"] == "200" else "post" if r["mode"] == "status" else "ev"
             return "routed:" + (want if want in hits else hits[0])
@@ -143,6 +151,12 @@ def split_delivered(case, o):
     return terms, srv
 
 
+def reader_done(case):
+    """how the application's reader may have ended: end of stream, or - when the application closed
+    its end itself - with its own ClosedResourceError"""
+    return ("end", "closed") if case.get("close_read_at") is not None else ("end",)
+
+
 def impl_shape(case, o, what):
     e = o.get("enter") or {"k": "none"}
     out = {"enter": {"k": e["k"], "t": e.get("t")}}
@@ -153,7 +167,7 @@ def impl_shape(case, o, what):
     if what == "release":
         a = o.get("after") or {}
         out["released"] = bool(a) and not a.get("tasks") and not a.get("clients_open") and not a.get("sse_stream_open") \
-            and a.get("reader") == "end" and not a.get("write_open")
+            and a.get("reader") in reader_done(case) and not a.get("write_open")
         return out
     terms, srv = split_delivered(case, o)
     out["url"] = o["posts"][0][1] if o.get("posts") else None
@@ -242,6 +256,15 @@ def oracle_requests(case, o, upto=None):
         for m in mine:
             if "result" not in m and "error" not in m:
                 return ("terminal/not-a-response/" + tag, f"request {r['id']!r}: {m}", None)
+        # when the server gave its answer in one of the ways the property names (in the POST reply,
+        # on the event stream before or after the 202) and in time, that answer IS the terminal
+        # message - a synthesised error stands for "never" and for a failed POST only
+        which = G.answered_by(r, case.get("T", G.T_DEFAULT))
+        if which is not None and expect == 1 and len(mine) == 1:
+            want = {k: v for k, v in H.answer_msg(r, which).items() if v is not None}
+            if canon(mine[0]) != canon(want):
+                return (f"terminal/not-the-answer/{tag}", f"request {r['id']!r} ({tag}) was answered by the server ({which}) but the read stream got "
+                        f"{str(mine[0])[:300]}", {"terminal": "the server's answer"})
     want = G.expected_srv(case)
     cs, cw = [canon(x) for x in srv], [canon(x) for x in want]
     if cs != cw:
@@ -310,7 +333,7 @@ def oracle_release(case, o):
         return (f"leak/http-client/{ek}", f"{a['clients_open']} of {a['clients']} httpx clients not closed after exit", {"clients_open": 0})
     if a.get("sse_stream_open"):
         return (f"leak/sse-stream/{ek}", "the GET response stream was not closed after exit", {"sse_stream_open": False})
-    if a.get("reader") != "end":
+    if a.get("reader") not in reader_done(case):
         return (f"leak/read-stream/{ek}", f"a reader of the read stream is not released after exit: {a.get('reader')}", {"reader": "end"})
     if a.get("write_open"):
         return (f"leak/write-stream/{ek}", "the write stream still accepts messages after exit", {"write_open": False})
@@ -599,6 +622,37 @@ class Repeats(Base):
         return f"repeats/{modes[0] if modes else 'idle'}x{len(modes)}" + ("/" + ",".join(tags) if tags else "")
 
 
+class Sizes(Base):
+    """HARDEN3 I / M / K / H / N: events far above every buffer, ids reused by the other peer,
+    the process environment, subclasses and Unicode twins, reply metadata"""
+    name = "sizes-collisions-environment"
+
+    def cases(self, ctx, budget):
+        rng = ctx.sub_rng("c12-h3", budget)
+        return G.decorate(G.size_cases(budget, rng) + G.collision_cases(budget, rng) + G.environment_cases(budget, rng), self.name)
+
+    def oracle(self, case, o):
+        if o.get("harness_errors"):
+            return None
+        v = oracle_enter(case, o)
+        if v is None and (o.get("enter") or {}).get("k") == "yielded":
+            v = oracle_requests(case, o)
+        if v is None and (o.get("enter") or {}).get("k") == "yielded":
+            v = oracle_release(case, o)
+        return v
+
+    def kind(self, case, o):
+        big = [it["n"] for it in case.get("items", []) if it["k"] == "bigmsg"] + [r["answer"]["big"] for r in case.get("reqs", []) if "big" in (r.get("answer") or {})]
+        if big:
+            return f"size/{big[0] // 1000}K/{'answer' if not any(it['k'] == 'bigmsg' for it in case.get('items', [])) else 'server-message'}"
+        if case.get("stderr"):
+            return "environment/stderr-" + case["stderr"]
+        if any(it["k"] == "msg" and "method" in it["m"] and "id" in it["m"] and not isinstance(it["m"]["id"], int) or
+               (it["k"] == "msg" and isinstance(it["m"].get("id"), int) and it["m"]["id"] < 100) for it in case.get("items", [])):
+            return "collision/" + case["reqs"][0]["mode"]
+        return "environment/other"
+
+
 class Boundaries(Base):
     name = "boundaries"
 
@@ -708,4 +762,4 @@ def extra(ctx, tier):
 
 
 def suites():
-    return [Establish(), Requests(), Chunking(), Backpressure(), Variants(), Grammar(), RaceMatrix(), Repeats(), Boundaries(), Exits(), Units()]
+    return [Establish(), Requests(), Chunking(), Backpressure(), Variants(), Grammar(), RaceMatrix(), Repeats(), Sizes(), Boundaries(), Exits(), Units()]
